@@ -17,7 +17,7 @@ use std::io::{BufRead, BufReader, Write};
 use std::process::{Child, ChildStdin, ChildStdout, Command, Stdio};
 use std::time::{Duration, Instant};
 
-use model::{run_program, LoomResult};
+use model::{is_monitor, run_program, LoomResult};
 use prog::Prog;
 
 const RULE: &str = "loom outcomes ⊆ model outcomes (= when unbounded); verdicts equal";
@@ -41,6 +41,13 @@ const QUICK_PROGRAMS: &[&str] = &[
     "h=1,1,0 : send:2 | mutate drop | recv read unwrap",
     "read | mutate | drop",
     "h=2,1 : drop mutate read | drop",
+    // started at (or one below) the share-count ceiling
+    "at=ceil h=1,1,1 : clone | clone | mutate drop",
+    "at=ceil h=1,1,1 : clone drop | clone drop | mutate",
+    "at=ceil-1 h=1,1 : clone drop | clone drop",
+    "at=ceil-1 h=1,1,1 : clone | clone | unwrap",
+    "at=ceil h=1,1 : clone read drop | mutate drop",
+    "at=ceil-1 h=1,1 : clone mutate | clone drop",
 ];
 
 struct Args {
@@ -119,16 +126,16 @@ struct LeanResult {
 }
 
 impl Lean {
-    fn spawn(path: &str) -> Lean {
+    fn spawn(path: &str) -> Result<Lean, String> {
         let mut child = Command::new(path)
             .stdin(Stdio::piped())
             .stdout(Stdio::piped())
             .stderr(Stdio::inherit())
             .spawn()
-            .unwrap_or_else(|e| internal(&format!("cannot spawn lean driver {path}: {e}")));
+            .map_err(|e| format!("cannot spawn lean driver {path}: {e}"))?;
         let stdin = child.stdin.take().unwrap();
         let stdout = BufReader::new(child.stdout.take().unwrap());
-        Lean { child, stdin, stdout }
+        Ok(Lean { child, stdin, stdout })
     }
 
     fn query(&mut self, line: &str) -> Result<LeanResult, String> {
@@ -145,6 +152,45 @@ impl Lean {
     fn finish(mut self) {
         drop(self.stdin);
         let _ = self.child.wait();
+    }
+
+    fn abandon(mut self) {
+        let _ = self.child.kill();
+        let _ = self.child.wait();
+    }
+}
+
+/// The Lean side of the run: a broken driver (cannot be spawned, garbage answers) does not stop
+/// the loom runs and their monitors; it is remembered and reported.
+struct LeanCtx {
+    lean: Option<Lean>,
+    error: Option<String>,
+}
+
+impl LeanCtx {
+    fn new(path: Option<&str>) -> LeanCtx {
+        match path.map(Lean::spawn) {
+            None => LeanCtx { lean: None, error: None },
+            Some(Ok(l)) => LeanCtx { lean: Some(l), error: None },
+            Some(Err(e)) => LeanCtx { lean: None, error: Some(e) },
+        }
+    }
+
+    fn query(&mut self, p: &Prog) -> Option<LeanResult> {
+        let l = self.lean.as_mut()?;
+        match l.query(&p.lean_line()) {
+            Ok(mut r) => {
+                r.outcomes = r.outcomes.iter().map(|o| p.strip_phantom(o)).collect();
+                Some(r)
+            }
+            Err(e) => {
+                self.error = Some(format!("on `{}`: {e}", p.lean_line()));
+                if let Some(l) = self.lean.take() {
+                    l.abandon();
+                }
+                None
+            }
+        }
     }
 }
 
@@ -273,7 +319,7 @@ fn evaluate(
     bound: Option<usize>,
     allow_fallback: bool,
     complement: bool,
-    lean: &mut Option<Lean>,
+    lean: &mut LeanCtx,
 ) -> Eval {
     let budget = if bound.is_none() { Some(UNBOUNDED_BUDGET) } else { None };
     let mut loom = run_program(p, bound, budget);
@@ -304,10 +350,7 @@ fn evaluate(
             loom.message = second.message;
         }
     }
-    let lean_res = match lean {
-        Some(l) => Some(l.query(&p.line()).unwrap_or_else(|e| internal(&e))),
-        None => None,
-    };
+    let lean_res = lean.query(p);
     let (problem, sets_equal, validated) = match &lean_res {
         Some(lr) => {
             let (p, e, v) = compare(&loom, lr);
@@ -318,9 +361,16 @@ fn evaluate(
     Eval { prog: p.clone(), loom, lean: lean_res, problem, sets_equal, validated }
 }
 
-/// Greedy shrinking of a disagreeing program: delete one action at a time while the two sides
-/// still disagree (and loom does not merely deadlock on a now unsatisfiable `recv`).
-fn shrink(ev: Eval, bound: Option<usize>, complement: bool, lean: &mut Option<Lean>) -> Eval {
+/// Greedy shrinking of a failing program: delete one action at a time while `still_fails`
+/// holds (the same monitor still fires / the two sides still disagree) and loom does not merely
+/// deadlock on a now unsatisfiable `recv`.
+fn shrink(
+    ev: Eval,
+    bound: Option<usize>,
+    complement: bool,
+    lean: &mut LeanCtx,
+    still_fails: &dyn Fn(&Eval) -> bool,
+) -> Eval {
     let mut best = ev;
     let mut progress = true;
     let mut tries = 0;
@@ -335,7 +385,7 @@ fn shrink(ev: Eval, bound: Option<usize>, complement: bool, lean: &mut Option<Le
                     continue;
                 }
                 let e = evaluate(&cand, bound, false, complement, lean);
-                if e.problem.is_some() && e.loom.verdict != "deadlock" && !e.loom.truncated {
+                if still_fails(&e) && e.loom.verdict != "deadlock" && !e.loom.truncated {
                     best = e;
                     progress = true;
                     break 'outer;
@@ -344,6 +394,19 @@ fn shrink(ev: Eval, bound: Option<usize>, complement: bool, lean: &mut Option<Le
         }
     }
     best
+}
+
+/// What C04 demands, per monitor.
+fn monitor_expected(kind: &str) -> &'static str {
+    match kind {
+        "race" => "no data race on the payload: every access through a (former) co-owner happens-before the mutation/free",
+        "double-free" => "the buffer is released exactly once",
+        "use-after-free" => "the buffer is released only after the last access by any thread (no handle outlives the free)",
+        "leak" => "the buffer is released exactly once, when the last handle is dropped",
+        "content" => "each value still reads its expected content: final payload == number of granted mutations",
+        "unique-while-shared" => "in-place mutable access or ownership is granted only if no other handle still refers to the buffer",
+        _ => "-",
+    }
 }
 
 // ---------------------------------------------------------------------------------------------
@@ -369,6 +432,7 @@ fn main() {
         lines.extend(QUICK_PROGRAMS.iter().map(|s| s.to_string()));
         if args.tier == "thorough" {
             lines.extend(prog::generate(args.seed, 30));
+            lines.extend(prog::generate_ceiling(args.seed, 8));
         }
     }
     let progs: Vec<Prog> = lines
@@ -390,15 +454,20 @@ fn main() {
     // thorough tier without an explicit --bound: unbounded pass + bounded complement pass
     let complement = args.tier == "thorough" && args.bound.is_none();
 
-    let mut lean = args.lean.as_deref().map(Lean::spawn);
+    let mut lean = LeanCtx::new(args.lean.as_deref());
 
     let mut evals: Vec<Eval> = Vec::new();
     for p in &progs {
         let t0 = Instant::now();
         let mut ev = evaluate(p, bound, true, complement, &mut lean);
-        if ev.problem.is_some() && ev.loom.verdict != "deadlock" {
+        if is_monitor(&ev.loom.verdict) {
+            // a property monitor fired on the real code: shrink while the SAME monitor fires
             let b = ev.loom.bound;
-            ev = shrink(ev, b, complement, &mut lean);
+            let kind = ev.loom.verdict.clone();
+            ev = shrink(ev, b, complement, &mut lean, &|e: &Eval| e.loom.verdict == kind);
+        } else if ev.problem.is_some() && ev.loom.verdict != "deadlock" {
+            let b = ev.loom.bound;
+            ev = shrink(ev, b, complement, &mut lean, &|e: &Eval| e.problem.is_some());
         }
         if args.verbose {
             eprintln!(
@@ -413,9 +482,10 @@ fn main() {
         }
         evals.push(ev);
     }
-    if let Some(l) = lean.take() {
+    if let Some(l) = lean.lean.take() {
         l.finish();
     }
+    let lean_error = lean.error.take();
 
     // ---- report -------------------------------------------------------------------------
     let mut dist_actions: BTreeMap<String, u64> = BTreeMap::new();
@@ -440,6 +510,11 @@ fn main() {
         *dist_outcomes.entry(k.to_string()).or_default() += 1;
     }
     let disagreements: Vec<&Eval> = evals.iter().filter(|e| e.problem.is_some()).collect();
+    let monitors: Vec<&Eval> = evals.iter().filter(|e| is_monitor(&e.loom.verdict)).collect();
+    let loom_errors: Vec<&Eval> = evals
+        .iter()
+        .filter(|e| e.loom.verdict == "error" || e.loom.verdict == "branch-limit")
+        .collect();
     let exhaustive = evals.iter().all(|e| e.loom.bound.is_none() && !e.loom.truncated);
     let notes: Vec<String> = evals
         .iter()
@@ -489,6 +564,22 @@ fn main() {
     }
     {
         let mut ds = Vec::new();
+        for ev in &monitors {
+            let kind = ev.loom.verdict.as_str();
+            let mut d = json::Obj::new();
+            d.str("kind", "monitor");
+            d.str("monitor", kind);
+            d.raw("input", &json::str_array(std::iter::once(ev.prog.line().as_str())));
+            d.str("expected", monitor_expected(kind));
+            d.str("observed", ev.loom.message.as_deref().unwrap_or(kind));
+            d.str("profile", if cfg!(debug_assertions) { "debug" } else { "release" });
+            d.num("failing_execution", ev.loom.iterations);
+            d.raw(
+                "preemption_bound",
+                &ev.loom.bound.map(|b| b.to_string()).unwrap_or_else(|| "null".into()),
+            );
+            ds.push(d.finish());
+        }
         for ev in &disagreements {
             let mut d = json::Obj::new();
             d.str("kind", "impl-vs-model");
@@ -549,7 +640,23 @@ fn main() {
     j.raw("notes", &json::str_array(notes.iter().map(|s| s.as_str())));
     j.str("tier", &args.tier);
     j.num("seed", args.seed);
-    j.boolean("lean_compared", args.lean.is_some());
+    j.boolean("lean_compared", args.lean.is_some() && lean_error.is_none());
+    j.num("monitors_fired", monitors.len() as u64);
+    match &lean_error {
+        Some(e) => j.str("lean_error", e),
+        None => j.raw("lean_error", "null"),
+    }
+    j.raw(
+        "loom_internal_errors",
+        &json::str_array(
+            loom_errors
+                .iter()
+                .map(|e| format!("{}: {}", e.prog.line(), e.loom.message.as_deref().unwrap_or("?")))
+                .collect::<Vec<_>>()
+                .iter()
+                .map(|s| s.as_str()),
+        ),
+    );
     j.num("runtime_ms", start.elapsed().as_millis() as u64);
     let text = j.finish();
 
@@ -567,9 +674,10 @@ fn main() {
     }
 
     eprintln!(
-        "loomdrive: {} programs, {} loom iterations, {} disagreement(s), outcome sets equal on {}/{}, {} ms",
+        "loomdrive: {} programs, {} loom iterations, {} monitor failure(s), {} impl-vs-model disagreement(s), outcome sets equal on {}/{}, {} ms",
         evals.len(),
         evals.iter().map(|e| e.loom.iterations).sum::<u64>(),
+        monitors.len(),
         disagreements.len(),
         quick_equal,
         evals.len(),
@@ -577,6 +685,24 @@ fn main() {
     );
     for n in &notes {
         eprintln!("loomdrive: note: {n}");
+    }
+    for ev in &monitors {
+        eprintln!(
+            "loomdrive: MONITOR {} fired on `{}`: {}",
+            ev.loom.verdict,
+            ev.prog.line(),
+            ev.loom.message.as_deref().unwrap_or("")
+        );
+    }
+    if let Some(e) = &lean_error {
+        eprintln!("loomdrive: lean driver unusable ({e}); loom runs and monitors only");
+    }
+    for ev in &loom_errors {
+        eprintln!(
+            "loomdrive: loom internal error on `{}`: {}",
+            ev.prog.line(),
+            ev.loom.message.as_deref().unwrap_or("?")
+        );
     }
     for ev in &disagreements {
         eprintln!("loomdrive: DISAGREEMENT on `{}`: {}", ev.prog.line(), ev.problem.as_deref().unwrap_or(""));
@@ -610,5 +736,12 @@ fn main() {
             }
         }
     }
-    std::process::exit(if disagreements.is_empty() { 0 } else { 1 });
+    let code = if !monitors.is_empty() || !disagreements.is_empty() {
+        1
+    } else if lean_error.is_some() || !loom_errors.is_empty() {
+        2
+    } else {
+        0
+    };
+    std::process::exit(code);
 }
